@@ -869,10 +869,24 @@ def _x_call(draw, og):
 def _x_derivative(draw, og):
     a = og.array(draw, max_ndim=2)
     n = draw(st.integers(1, 2))
-    dv = [draw(st.sampled_from(a["names"])) for _ in range(n)]
+    dv = [draw(st.sampled_from(list(a["names"]) + list(range(len(a["names"]))))) for _ in range(n)]
     if draw(st.integers(0, 4)) == 0:
         dv.append("q77")  # unknown variable: the call raises after the first steps
     return {"args": [P(a)], "kw": {"vars": dv}}
+
+
+@extra("cancel-then-call")
+def _x_cancel_call(draw, og):
+    """two-step program: (p - p) evaluated / partially evaluated"""
+    a = og.array(draw, max_ndim=2)
+    vals = {n: draw(st.integers(-2, 3)) for n in a["names"] if draw(st.integers(0, 3)) > 0}
+    return {"args": [P(a)], "kw": {"values": vals}}
+
+
+@extra("cancel-then-reduce")
+def _x_cancel_reduce(draw, og):
+    a = og.array(draw, min_ndim=1, max_ndim=2)
+    return {"args": [P(a)], "kw": {"how": draw(st.sampled_from(["sum", "derivative", "index", "mul"]))}}
 
 
 @extra("gradient")
@@ -940,6 +954,18 @@ def invoke_extra(name, args, kw):
         return p(**kw["values"])
     if name == "derivative":
         return numpoly.derivative(p, *kw["vars"])
+    if name == "cancel-then-call":
+        return (p - p)(**kw["values"])
+    if name == "cancel-then-reduce":
+        z = p - p
+        how = kw["how"]
+        if how == "sum":
+            return numpoly.sum(z, axis=0)
+        if how == "derivative":
+            return numpoly.derivative(z, 0)
+        if how == "index":
+            return z[0]
+        return z * p
     if name in ("gradient", "hessian", "decompose", "isconstant", "tonumpy", "lead_exponent", "lead_coefficient",
                 "sortable_proxy", "clean_attributes", "polynomial", "aspolynomial", "to_sympy"):
         return getattr(numpoly, name)(p)
